@@ -243,6 +243,25 @@ class Gen:
             return [kw('UPDATE')] + self.ident() + [kw('SET'), nm('x'), Lex('cmp', '=')] + self.expr(1) + [pu(';')]
         return [kw('RETURN')] + self.expr(2) + [pu(';')]
 
+    def block_cond(self):
+        """condition of a procedural IF / ELSIF / WHILE: the ordinary conditions plus forms that START with a keyword or a bracket directly
+        after the block keyword (a lexer rule joining the block keyword with its successor must not change the statement's extent)"""
+        r = self.r.random()
+        if r < 0.5:
+            return self.cond(2)
+        sub = [pu('('), kw('SELECT'), Lex('num', '1'), kw('FROM')] + self.ident() + [pu(')')]
+        if r < 0.62:
+            self.count('blk_cond_exists')
+            return [kw('EXISTS')] + sub
+        if r < 0.74:
+            self.count('blk_cond_not_exists')
+            return [kw('NOT'), kw('EXISTS')] + sub
+        if r < 0.82:
+            return [kw('NOT')] + [pu('(')] + self.cond(2) + [pu(')')]
+        if r < 0.9:
+            return [pu('(')] + self.cond(2) + [pu(')')]
+        return [nm(self.r.choice(IDENT)), kw('IS'), kw('NULL')]
+
     def block_items(self, d, allow):
         out = []
         for _ in range(self.r.randint(1, 3)):
@@ -251,9 +270,9 @@ class Gen:
                 out += self.plain_stmt()
             elif r < 0.6:
                 self.count('blk_if')
-                out += [kw('IF')] + self.cond(2) + [kw('THEN')] + self.block_items(d + 1, allow)
+                out += [kw('IF')] + self.block_cond() + [kw('THEN')] + self.block_items(d + 1, allow)
                 if self.r.random() < 0.3:
-                    out += [kw('ELSIF')] + self.cond(2) + [kw('THEN')] + self.block_items(d + 1, allow)
+                    out += [kw('ELSIF')] + self.block_cond() + [kw('THEN')] + self.block_items(d + 1, allow)
                 if self.r.random() < 0.4:
                     out += [kw('ELSE')] + self.block_items(d + 1, allow)
                 out += [kw('END IF'), pu(';')]
@@ -262,7 +281,7 @@ class Gen:
                 out += [kw('BEGIN')] + self.block_items(d + 1, allow) + [kw('END'), pu(';')]
             elif r < 0.78:
                 self.count('blk_while_do')
-                out += [kw('WHILE')] + self.cond(2) + [kw('DO')] + self.block_items(d + 1, allow) + [kw('END WHILE'), pu(';')]
+                out += [kw('WHILE')] + self.block_cond() + [kw('DO')] + self.block_items(d + 1, allow) + [kw('END WHILE'), pu(';')]
             elif r < 0.86:
                 self.count('blk_loop')
                 out += [kw('LOOP')] + self.block_items(d + 1, allow) + [kw('END LOOP'), pu(';')]
